@@ -93,6 +93,12 @@ def opsGenPipe : List (String × Handler) := [
     let n := (xs.getD 0 0).toNat; let m := (xs.getD 1 0).toNat
     if xs.size ≠ 2 + 6 * n * m then "bad-args" else
     showGrid (Gen.customT (readGrid n m xs 2) (readGrid n m xs (2 + 2 * n * m)) (readGrid n m xs (2 + 4 * n * m)))),
+  -- custom with kernel = None: n m, field, aperture
+  ("gp_custom_ones", fun a =>
+    let xs := a.toArray
+    let n := (xs.getD 0 0).toNat; let m := (xs.getD 1 0).toNat
+    if xs.size ≠ 2 + 4 * n * m then "bad-args" else
+    showGrid (Gen.customOnesT (readGrid n m xs 2) (readGrid n m xs (2 + 2 * n * m)))),
   ("gp_custom_pad", fun a =>
     let xs := a.toArray
     let n := (xs.getD 0 0).toNat; let m := (xs.getD 1 0).toNat
